@@ -181,6 +181,7 @@ bool isDecimalInteger(const std::string& s, char scientificNotation)
     return false;
 
   std::size_t sciCount = 0;
+  std::size_t mantissaDigits = 0;
   std::size_t i = 0;
   if (s[0] == '-')
     i = 1;
@@ -190,6 +191,8 @@ bool isDecimalInteger(const std::string& s, char scientificNotation)
     if (c == scientificNotation)
     {
       sciCount++;
+      if (mantissaDigits == 0)
+        return false; // Must be at least one digit before the exponent.
       if (i == s.size() - 1)
         return false; // Must be sthg after scientific notation.
       c = s[i + 1];
@@ -202,10 +205,12 @@ bool isDecimalInteger(const std::string& s, char scientificNotation)
     }
     else if (!isDecimalNumber(c))
       return false;
+    else if (sciCount == 0)
+      mantissaDigits++;
     if (sciCount > 1)
       return false;
   }
-  return true;
+  return mantissaDigits > 0;
 }
 
 /******************************************************************************/
